@@ -14,6 +14,7 @@ package prune
 
 import (
 	"context"
+	"errors"
 	"fmt"
 	"reflect"
 	"strings"
@@ -159,6 +160,10 @@ type runner struct {
 
 func (r *runner) newWorld() *world {
 	w, err := newWorld(r.in.Consts, r.seed, r.ns, r.be)
+	if errors.Is(err, errOnRealCode) {
+		r.diverge("prune-fails-on-valid-chain", err.Error(), -1, nil, nil, nil)
+		return nil
+	}
 	if err != nil {
 		panic(fmt.Sprintf("prune engine: cannot build the initial world: %v", err))
 	}
@@ -358,6 +363,9 @@ func TestPruneConform(t *testing.T) {
 			for _, be := range in.Backends {
 				r := &runner{in: in, out: out, b: b, ns: ns, be: be, seed: in.seedFor(bi)}
 				w := r.newWorld()
+				if w == nil {
+					continue
+				}
 				if _, ok := r.play(w, true, nil); ok {
 					r.finale(w, nil)
 				}
@@ -417,6 +425,9 @@ func TestPruneEnum(t *testing.T) {
 					continue
 				}
 				w := r.newWorld()
+				if w == nil {
+					continue
+				}
 				dumps, ok := r.play(w, false, nil)
 				w.close()
 				runs++
@@ -448,6 +459,9 @@ func TestPruneEnum(t *testing.T) {
 func (r *runner) trial(at, last, k int, mode string, ref []faultkv.KV) {
 	o := &only{at, k, mode}
 	w := r.newWorld()
+	if w == nil {
+		return
+	}
 	defer w.close()
 	if _, ok := r.play(w, false, o); !ok {
 		return
